@@ -719,6 +719,25 @@ func work(a lib.Args) {
 			items = append(items, it)
 			n++
 		}
+		// the JOSE header dimension x the signing-key dimension: whatever the header says (kid, jku, x5c, jwk, crit,
+		// unknown members, duplicates), the signature has to verify under THE relay secret
+		for _, hv := range acc.HeaderVariants() {
+			for _, kv := range acc.KeyVariants() {
+				r := rng.Fork()
+				it := genSession(r, n, mocks)
+				e := mocks[it.H.Cfg.AE]
+				topic := "T" + it.H.Name
+				base := acc.SessionBearer(e.Cfg.Host, it.H.T0, topic, "bk-"+it.H.Name, []string{"read", "write"})
+				x := acc.Req{Route: "session", ID: topic, Label: "good", Auth: acc.WithHeaderKey(base, hv, kv, e.Secret)}
+				x.Method, x.Target = acc.TargetFor("session", topic, nil, nil)
+				adm := acc.ScopeBearer(e.Cfg.Host, it.H.T0, []string{"relay:admin"})
+				la := acc.Req{Route: "listallow", Method: "GET", Target: "/bids/allow", Auth: adm}
+				it.H.Ops = []acc.Op{{K: "req", Req: &la}, {K: "req", Req: &x}, {K: "req", Req: &la}}
+				it.X, it.Denied, it.DenBid = 1, false, ""
+				items = append(items, it)
+				n++
+			}
+		}
 		// the configuration dimension of the secret: instances whose secret contains commas, leading / trailing
 		// commas, spaces, is very long or not ASCII; bearers signed with the exact string (good), with each
 		// comma-separated part, the trimmed string, the EMPTY key, a prefix
@@ -1032,7 +1051,7 @@ func work(a lib.Args) {
 		}
 	}
 	res.Evaluations = kept
-	if _, err := lib.WriteShards(a.Out, acc.Header("C01"), "case", coq, res.ShardSize); err != nil {
+	if err := acc.WriteShards(a.Out, "C01", coq, res.ShardSize); err != nil {
 		fmt.Fprintln(os.Stderr, err)
 		os.Exit(2)
 	}
